@@ -56,9 +56,20 @@ FIXED = ['a\u2028b', 'a\x85b', 'x\x0cy', '日本', 'a€', '-la', '-a b', '-2024
 async def one_name(net, hyg, plan):
     viol = []
     mon = {"steps_checked": 0, "pwd_roundtrip": 0, "listing_names": 0}
-    w = W.World(net)
+    enc = plan.get("encoding")
+    users = None
+    if plan.get("perm_siblings"):
+        # non-default permissions on *other* names that only share characters with the name under test (a proper string
+        # prefix of it, it plus a suffix): they must not govern it
+        base = pathlib.PurePosixPath("/")
+        for par in plan["parents"]:
+            base = base / par
+        locked = [str(base / x) for x in plan["perm_siblings"]]
+        users = [aioftp.User(base_path="/", permissions=[aioftp.Permission("/")] +
+                             [aioftp.Permission(x, readable=False, writable=False) for x in locked])]
+    w = W.World(net, users=users, **({"encoding": enc} if enc else {}))
     await w.start()
-    c = aioftp.Client(path_io_factory=aioftp.MemoryPathIO)
+    c = aioftp.Client(path_io_factory=aioftp.MemoryPathIO, **({"encoding": enc} if enc else {}))
     try:
         await c.connect("127.0.0.1", 2121)
         await c.login()
@@ -298,6 +309,19 @@ def gen_cases(tier, seed):
         other = gen_name(rng)
         if other == name:
             other = name + "2"
-        plans.append({"seed": seed * 31 + i, "name": name, "other": other, "parents": parents})
+        plan = {"seed": seed * 31 + i, "name": name, "other": other, "parents": parents}
+        r = rng.random()
+        if r < 0.3:
+            sib = [x for x in (name[:max(1, len(name) // 2)], name + "~locked", name[:-1]) if x and x not in (".", "..", name, other)
+                   and not x[-1].isspace() and "/" not in x]
+            if sib:
+                plan["perm_siblings"] = sib
+        elif r < 0.5:
+            try:
+                "/".join([name, other] + parents).encode("latin-1")
+                plan["encoding"] = "latin-1"
+            except UnicodeEncodeError:
+                pass
+        plans.append(plan)
     per = 8
     return [{"plans": plans[i:i + per]} for i in range(0, len(plans), per)]
